@@ -25,6 +25,13 @@ def gen(c, max_ops=8):
 
     for _ in range(max_ops):
         k = c.int(0, 12)
+        if k == 12 and c.chance(1, 2):
+            # one value with three consumers created in a drawn order: a non-zero contribution, an exactly-zero contribution (a saturated
+            # maximum) and a pass-through contribution shared with a sibling that is still waiting for another one of its own
+            a = pick()
+            stmts.append(["zero_mid", a, c.perm(3), c.bool()])
+            shapes.append(shapes[a])
+            continue
         if k == 12:
             # b = sin(a); d = a + b (one cotangent object for a and b); c_ = b[i] (indexed use of b); result c_ + d or d + c_
             a = pick()
@@ -45,7 +52,8 @@ def gen(c, max_ops=8):
             shapes.append(shapes[a])
         elif k == 6:  # scale by constant / add constant (pass-through style rules)
             a = pick()
-            stmts.append(["k", c.choice(["addc", "mulc", "reshape_same", "subc_left"]), a])
+            # (zero_mul / saturated_max: results whose cotangent contribution to `a` is an exactly-zero array)
+            stmts.append(["k", c.choice(["addc", "mulc", "reshape_same", "subc_left", "zero_mul", "saturated_max", "half_max"]), a])
             shapes.append(shapes[a])
         elif k == 7:  # indexing (sparse contribution) followed by padding back via multiplication with a mask-free broadcast
             a = pick()
@@ -140,6 +148,12 @@ def run(prog, x, ns):
                 r = a * 1.5
             elif name == "subc_left":
                 r = 2.0 - a
+            elif name == "zero_mul":
+                r = a * 0.0 + 0.25
+            elif name == "saturated_max":
+                r = ns.maximum(a, 1.0e6) * 1.0e-6
+            elif name == "half_max":
+                r = ns.maximum(a, 0.137)  # some entries pass, others are clamped (a tie has probability zero on the value grid)
             else:
                 r = ns.reshape(a, onp.shape(a))
         elif t == "idx":
@@ -156,6 +170,20 @@ def run(prog, x, ns):
             d = a + b
             c_ = b[st[2]]
             r = (c_ + d) if st[3] else (d + c_)
+        elif t == "zero_mid":
+            a = vals[st[1]]
+            z = ns.cos(a)
+            u1 = z * z * z
+            parts = {}
+            for which in st[2]:
+                if which == 0:
+                    parts[0] = 3.0 * a * a
+                elif which == 1:
+                    parts[1] = ns.maximum(a, 1.0e6) * 1.0e-6
+                else:
+                    parts[2] = (a + z) ** 2
+            t0, t1, t2 = (parts[w] for w in st[2])  # the order of summation decides the order in which the contributions arrive
+            r = (u1 + t0 + t1 + t2) if st[3] else (t0 + t1 + t2 + u1)
         elif t == "cat":
             r = ns.concatenate([vals[st[1]], vals[st[2]]], axis=0)
         else:
